@@ -19,7 +19,13 @@ func (ir *IntrospectionResolver) ResolveIntrospectionFields(selectionSet ast.Sel
 	for _, f := range common.SelectionSetToFields(selectionSet, nil) {
 		switch f.Name {
 		case "__type":
-			name := f.Arguments.ForName("name").Value.Raw
+			// the name may be given as a literal or through a variable
+			var name string
+			if nameArg := f.Arguments.ForName("name"); nameArg != nil {
+				if v, err := nameArg.Value.Value(ir.Variables); err == nil {
+					name, _ = v.(string)
+				}
+			}
 			introspectionResult[f.Alias] = ir.resolveType(schema, &ast.Type{NamedType: name}, f.SelectionSet)
 			isIntrospection = true
 		case "__schema":
